@@ -91,9 +91,11 @@ func (c *Context) AbortWithStatus(code int, msg ...string) {
 
 // Next processing, run all handlers
 func (c *Context) Next() {
-	c.index++
-	s := int8(len(c.handlers))
-	for ; c.index < s; c.index++ {
+	// Notice: the index stops at the last handler. If it keeps counting after the chain is done
+	// (once per returning Next() call), it reaches abortIndex without any Abort() and can overflow.
+	last := int8(len(c.handlers)) - 1
+	for c.index < last {
+		c.index++
 		c.handlers[c.index](c)
 	}
 }
